@@ -26,6 +26,9 @@ struct CaseResult {
     bool ok = true;
     std::string why;
     json records = json::array(); // records for TLC (code -> spec)
+    // behaviour the specification models but no listed property speaks of (e.g. the text
+    // written by operator<<): a difference is reported in the evidence, never as a violation
+    std::vector<std::string> diagnostics;
     void fail(const std::string &w) {
         if (ok)
             why = w;
